@@ -163,6 +163,7 @@ func runC06(c *Ctx) {
 	c.shared("R11", "C05/R1", "a prefix operator applies to the operand it is written in front of: unary nodes are built by the unary parselets only (an infix parselet that wraps what it parsed in a unary node applies the operator to a whole sub-expression)", keyHas("unary-universe", "unary unknown-operator"), runC05)
 	c.shared("R10", "C05/R3", "the evaluator computes the tree the parser built: every binary node evaluates its own two operands and applies its operator to them (no flattening of a chain of equal operators, which would regroup `1 + 2 + \"x\"`)", keyHas("operator Plus", "left-once", "left-before-right", "operand-source"), runC05)
 	c.shared("R6", "C13/R1", "member access binds tighter than binary `-`: an identifier is a run of letters, digits and '_' only, so `$.a-b` is `($.a) - b` and never the one name `a-b`", keyHas("identifier-class"), runC13)
+	c.shared("R12", "C13/R2", "prefix - binds looser than call, member and index on a literal as on a variable: the number token is digits and dots only and `-` is always a token of its own — a sign absorbed by the lexer makes `-2.5.floor()` group as `(-2.5).floor()`", keyHas("numeric-class", "numeric-token", "spelling -", "longest-match - "), runC13)
 	c.shared("R7", "C14/R4", "a root selector means what its text says: it reaches the expression parser unchanged (nothing is pasted in front of a leading parenthesis)", keyHas("root-list-contents"), func(s *Ctx) { rootsPerValue(s, "R4") })
 
 	// R2: the matrix
